@@ -164,15 +164,15 @@ func (g *generator) buildMethod(genMethod *generatedMethod, context map[string]*
 		case method.ArgUseContext:
 			name := ctx.Name("context")
 			ctx.Context[arg.Type.String] = xtype.VariableID(jen.Id(name))
-			args = append(args, jen.Id(name).Add(arg.Type.TypeAsJen()))
+			args = append(args, jen.Id(name).Add(argType(arg)))
 		case method.ArgUseSource:
 			name := ctx.Name("source")
 			sourceID = xtype.VariableID(jen.Id(name))
-			args = append(args, jen.Id(name).Add(arg.Type.TypeAsJen()))
+			args = append(args, jen.Id(name).Add(argType(arg)))
 		case method.ArgUseTarget:
 			name := ctx.Name("target")
 			targetAssign = jen.Id(name)
-			args = append(args, jen.Id(name).Add(arg.Type.TypeAsJen()))
+			args = append(args, jen.Id(name).Add(argType(arg)))
 		case method.ArgUseMultiSource:
 			panic("multi source aren't supported right now. https://github.com/jmattheis/goverter/issues/143")
 		}
@@ -252,6 +252,14 @@ func (g *generator) assignNoLookup(ctx *builder.MethodContext, assignTo *builder
 	return nil, typeMismatch(source, target)
 }
 
+// argType renders the type of a parameter as it was declared.
+func argType(arg method.Arg) jen.Code {
+	if arg.Variadic && arg.Type.List && !arg.Type.ListFixed {
+		return jen.Op("...").Add(arg.Type.ListInner.TypeAsJen())
+	}
+	return arg.Type.TypeAsJen()
+}
+
 func (g *generator) convertTo(ctx *builder.MethodContext, assignTo *builder.AssignTo, sourceID *xtype.JenID, source, target *xtype.Type, errPath builder.ErrorPath) ([]jen.Code, *builder.Error) {
 	if !target.Pointer || !target.PointerInner.Struct {
 		return nil, builder.NewError("target type must be a pointer struct for goverter:update signatures.")
@@ -302,7 +310,11 @@ func (g *generator) CallMethod(
 				cause := fmt.Sprintf("Method source type mismatches with conversion source: %s != %s", definition.Source.String, source.String)
 				return nil, nil, formatErr(cause)
 			}
-			params = append(params, sourceID.Code)
+			if arg.Variadic {
+				params = append(params, sourceID.Code.Clone().Op("..."))
+			} else {
+				params = append(params, sourceID.Code)
+			}
 		case method.ArgUseMultiSource:
 			panic("multi source aren't supported right now. https://github.com/jmattheis/goverter/issues/143")
 		case method.ArgUseTarget:
